@@ -199,8 +199,37 @@ func genClasses(r *RNG, n int, prefix string) []*GClass {
 			c.Methods = append(c.Methods,
 				&GMethod{Name: "ov0", Ret: []string{ta}},
 				&GMethod{Name: "ov0", Params: []GParam{{Types: []string{Pick(r, gScalarTypes)}}}, Ret: []string{tb}})
+			// and the usual pair the other way round: with a parameter first, then
+			// without one and without a declared result
+			c.Methods = append(c.Methods,
+				&GMethod{Name: "ov1", Params: []GParam{{Types: []string{ta}}}, Ret: []string{tb}},
+				&GMethod{Name: "ov1", Ret: []string{"Untyped"}})
 		}
 		out = append(out, c)
+	}
+	if len(out) >= 3 && r.Bool() {
+		// a chain of depth two whose top redeclares, with a stricter signature,
+		// a method Object declares too: the grandchild answers with the top's
+		out[1].Extends = []string{out[0].Name}
+		out[2].Extends = []string{out[1].Name}
+		has := false
+		for _, m := range out[0].Methods {
+			if m.Name == "inspect" {
+				has = true
+			}
+		}
+		if !has {
+			out[0].Methods = append(out[0].Methods, &GMethod{Name: "inspect", Params: []GParam{{Types: []string{"Int"}}}, Ret: []string{"String"}})
+		}
+		for _, c := range out[1:3] {
+			var keep []*GMethod
+			for _, m := range c.Methods {
+				if m.Name != "inspect" {
+					keep = append(keep, m)
+				}
+			}
+			c.Methods = keep
+		}
 	}
 	return out
 }
